@@ -95,7 +95,9 @@ impl PriceScenario {
                 if kind == 4 && (iqty.is_zero() || itotal.is_zero()) {
                     kind = 0;
                 }
-                let head = format!("{} PRICE{}Q\n", d, k + 1);
+                // a header may carry an effective date: the price still belongs to the transaction date
+                let eff = if rng.chance(1, 4) { format!("={}", (date + chrono::Duration::days(rng.range(-9, 10))).format("%Y/%m/%d")) } else { String::new() };
+                let head = format!("{}{} PRICE{}Q\n", d, eff, k + 1);
                 let signed_qty = if neg { qty.neg() } else { qty };
                 let after = held.get(&x).copied().unwrap_or(Q::ZERO).add(signed_qty).unwrap();
                 held.insert(x.clone(), after);
